@@ -134,6 +134,24 @@ def minimise(run, trace, rule, seconds=MAX_SECONDS):
                 break
             chunk = chunk // 2 if chunk > 1 else (1 if progressed else 0)
 
+    # (2b) ddmin over the prologue (warm-up ops the main thread runs before the threads start)
+    if cur.get("prologue"):
+        chunk = max(1, len(cur["prologue"]) // 2)
+        while chunk >= 1 and not budget.spent():
+            i = 0
+            progressed = False
+            while i < len(cur["prologue"]):
+                cand = copy.deepcopy(cur)
+                del cand["prologue"][i:i + chunk]
+                if bad(cand):
+                    cur = cand
+                    progressed = True
+                else:
+                    i += chunk
+            if chunk == 1 and not progressed:
+                break
+            chunk = chunk // 2 if chunk > 1 else (1 if progressed else 0)
+
     # (3) simplify the configuration and arguments
     def try_cfg(mut):
         nonlocal cur
